@@ -141,12 +141,14 @@ func corrC01(r *Run) {
 		"header-only frames with non-zero status), Marshal -> ReadPDU under a random read schedule; non-trivial = distinct (type, value) with a body; distinct by canonical value"
 	ts := pduTypes()
 	n := r.N(30, 800)
-	caseBudget := r.N(330, 6000)
+	caseBudget := r.N(264, 6000)
 	bigBudget := r.N(14, 400) // frames of several KiB are slow to parse inside coqc: a fixed number per run
 	vol := &pduVolume{maxLen: 2500}
 	defer vol.diff(r)
 	volPerType := r.N(120, 2500) // further values per type, for the direct tests and the extracted model only
+	perType := caseBudget / len(ts) // every type gets its share of the kernel cases (responses come last in id order)
 	for _, t := range ts {
+		typeBudget := perType
 		for i := 0; i < n+volPerType; i++ {
 			p := genPDU(r.Rng, t, modeDomain)
 			switch {
@@ -257,11 +259,11 @@ func corrC01(r *Run) {
 				}
 			}
 			// model: Marshal produces this frame; ReadPDU under this schedule gives this observation
-			if i < n && caseBudget > 0 && (len(frame) < 2500 || (len(frame) < 20000 && bigBudget > 0)) {
+			if i < n && typeBudget > 0 && (len(frame) < 2500 || (len(frame) < 20000 && bigBudget > 0 && i%3 == 0)) {
 				if len(frame) >= 2500 {
 					bigBudget--
 				}
-				caseBudget--
+				typeBudget--
 				r.Case(fmt.Sprintf("marshal+readpdu %s %.200s", t.Name, term),
 					fmt.Sprintf("beq_obytes (marshal %s %s) (Ok %s) && beq_read (run_read %s %s) %s",
 						layoutRef(t.ID), term, coqHex(frame), coqHex(c.data), schedTerm(sched), o.term()))
